@@ -138,6 +138,11 @@ class AckPdu(AbstractFileDirectiveBase):
         ack_packet = cls.__empty()
         ack_packet.pdu_file_directive = FileDirectivePduBase.unpack(raw_packet=data)
         ack_packet.pdu_file_directive.verify_length_and_checksum(data)
+        # Only the octets of this PDU without the CRC16 trailer hold parameters.
+        end_of_params = ack_packet.pdu_file_directive.packet_len
+        if ack_packet.pdu_file_directive.pdu_conf.crc_flag == CrcFlag.WITH_CRC:
+            end_of_params -= 2
+        data = data[:end_of_params]
         current_idx = ack_packet.pdu_file_directive.header_len
         if current_idx + 2 > len(data):
             raise BytesTooShortError(current_idx + 2, len(data))
